@@ -22,6 +22,23 @@ NEEDS = {
  "C17-neq-lte-equal-constants": "'x != c and x <= c' with EQUAL constants (also mirrored '3 != x and 3 >= x' and inside longer and-chains); differs only at x == c",
  "C18-reimported-module-alias-lost": "helper module has 'import m1 as h' (plain import with alias) and the client writes 'from helper import h' without its own alias: redirected to 'import m1', h unbound",
  "C19-shadow-check-ordinary-params-only": "a variable the naming rule renames AND a function in that scope with a keyword-only / positional-only / *args / **kwargs parameter of the same name (same change as C01-rename-shadow-kwonly-param, written independently)",
+ "C01-inline-math-comprehension-mutated-dependency": "a comprehension / list()/sorted() assigned to a name that is used once as argument of sum()/len(), with a dependency mutated IN PLACE (clear, append, item assignment, del, call) between assignment and use: the snapshot is evaluated after the mutation",
+ "C02-merge-chained-comps-if-order": "nested same-kind comprehension whose inner one is a pure filter, both levels have an if, and the OUTER condition raises or prints on elements the inner filter rejects (20 // x guarded by x != 0)",
+ "C03-replace-nodes-validates-input": "a nested f-string whose inner part is not spelled as ast.unparse spells it, inside a statement that an alter_code-based rule (early_continue, swap_if_else, missing_context_manager, ...) re-emits: the rule returns unparseable text, format_code raises SyntaxError",
+ "C04-blank-line-regex-order-backtracking": "a run of >= ~24 blank / whitespace-only lines anywhere but at the end of the input: exponential regex backtracking inside fix_too_many_blank_lines, format_code does not return",
+ "C05-starred-import-identity-vs-evicted-parse": "a module with 'from m import *' and a used name, formatted a SECOND time in the same process after >= 100 other texts were parsed (core.parse LRU evicted, trace_origin cache still holds nodes of the old tree): the starred import is deleted",
+ "C07-starred-target-not-an-assignment": "safe=True, a top-level assignment with a starred element in its target whose name is never read in the module: renamed to *_",
+ "C09-line-length-nested-pass-rejoins": "a statement at indentation > max_line_length - 60 (44 columns at the default) whose one-line width lies in (max_line_length - indent, 60]: split by one pass of the wrapping stage and re-joined by another, alternating forever",
+ "C10-zero-width-range-overlap": "an insertion (zero-width range) strictly inside the span of another rewrite of the same pass: no longer seen as overlapping, both applied (stale offsets) or the whole pass rolled back",
+ "C11-restore-strings-into-fstring-segments": "an f-string segment or format spec whose bare text parses as an expression ('ms', 'd') + a plain SINGLE-quoted literal with the same value elsewhere in the file: the segment is overwritten with the quoted literal",
+ "C12-scalar-leaf-isinstance": "an int constant 0/1 in a pattern against the bool False/True at that position in the code (isinstance instead of exact type)",
+ "C14-multiline-literal-last-line-indent": "a wildcard bound to a triple-quoted literal spanning >= 2 lines at column > 0 and used by the replacement: the literal's last line gets extra spaces inside the string",
+ "C15-method-call-keywords-dropped": "a method call on a literal with keyword arguments whose omission changes the result without raising ('a b c'.split(maxsplit=1)) in a position where constants are folded",
+ "C16-safe-callable-shadowed-name": "a side-effect-free user function whose name is ALSO bound other than by a direct module-level assignment (loop variable, local, with/walrus target, nested assignment) and a bare call through that name: the call is deleted",
+ "C17-unaryop-as-not": "an arithmetic unary operator directly on an and/or/not operand that occurs again in the expression: 'x or -x' -> True",
+ "C18-star-all-not-forwarded": ">= 2 star imports where a later module (directly or through a star re-export chain) has a list __all__ that omits a name it still binds privately, an earlier star import really provides that name, and the program uses it",
+ "C19-overused-constant-name-collision": "the module already binds PYREFACT_OVERUSED_CONSTANT_0 (output of an earlier run) and gains a new overused literal at module level that gets a numbered name: second constant gets the same name. NOTE: harmless since fix 47f9edd (names are checked after the convention is applied); evaluated against the parent commit 47f9edd~1",
+ "C20-skip-file-after-whitespace-normalisation": "a file with '# pyrefact: skip_file' that contains a tab, trailing blanks, >= 3 blank lines or blank lines at EOF: returned whitespace-normalised instead of byte-for-byte",
  "C20-ignore-on-closing-line": "the ignore comment is on the CLOSING line of a multi-line range a rule rewrites or removes (']) # pyrefact: ignore', last line of an if/else replaced by remove_dead_ifs)",
 }
 for name in sorted(os.listdir(os.path.join(HERE, "seeded"))):
